@@ -41,7 +41,7 @@ ENUM = {'maxsize': 'MAXSIZE', 'minsize': 'MINSIZE', 'gen': 'GENEROUS', 'gre': 'G
 def BOUNDS(tier):
     return ('presence subsets of the 9 criteria of size 0..%d (all of them), positions and extras symbolic unbounded integers, 2 flag permutations '
             'per subset, entry points parse() and Solver(); -stab x -twopl; downstream: %d E2 runs with gapped positions'
-            % ((2, 24) if tier == 'quick' else (3, 120)))
+            % ((2, 60) if tier == 'quick' else (3, 240)))
 
 
 def tasks(tier, seed):
@@ -63,7 +63,7 @@ def tasks(tier, seed):
         out.append({'kind': 'stab', 'stab': stab, 'twopl': twopl})
     # downstream order
     shs = shapes.corner_shapes()
-    n = 24 if tier == 'quick' else 120
+    n = 60 if tier == 'quick' else 240
     for i in range(n):
         I = shs[i % len(shs)]
         k = rng.choice([2, 3, 3, 4])
